@@ -491,8 +491,20 @@ def Chained : List Segment → Prop
   | [_] => True
   | a :: b :: rest => a.stop = b.start ∧ Chained (b :: rest)
 
+instance decChained : (l : List Segment) → Decidable (Chained l)
+  | [] => isTrue trivial
+  | [_] => isTrue trivial
+  | a :: b :: rest =>
+    match decChained (b :: rest) with
+    | isTrue h => if h' : a.stop = b.start then isTrue ⟨h', h⟩ else isFalse fun hc => h' hc.1
+    | isFalse h => isFalse fun hc => h hc.2
+
 /-- a measure is well formed -/
 def MeasureWF (m : MeasureContent) : Prop :=
   m.segs ≠ [] ∧ Chained m.segs ∧ ∀ s ∈ m.segs, SegWF m.start s
+
+instance (s : Segment) (ns : List NoteIn) : Decidable (VoiceWF s ns) := by unfold VoiceWF; infer_instance
+instance (mstart : Nat) (s : Segment) : Decidable (SegWF mstart s) := by unfold SegWF; infer_instance
+instance (m : MeasureContent) : Decidable (MeasureWF m) := by unfold MeasureWF; infer_instance
 
 end Model.Xml
